@@ -68,12 +68,14 @@ FlipCase(str) == LET cs == StrToUtf8(str)
                      p == CHOOSE i \in 3..Len(cs) : cs[i] >= 65 /\ \A q \in 3..(i - 1) : cs[q] < 65
                  IN  Utf8ToStr([cs EXCEPT ![p] = IF cs[p] >= 97 THEN cs[p] - 32 ELSE cs[p] + 32])
 DataVals == <<NStr("0x"), NStr("0x0"), NStr("00"), NStr("0xzz"), NNum("0"), NStr("0xAB"), NStr("0xab"), NStr("ab"), NNull,
-              NStr("0x "), NStr("0xabc"), NStr("0X00"), NArr(<<>>)>>
+              NStr("0x "), NStr("0xabc"), NStr("0X00"), NArr(<<>>), NStr("0x0x"), NStr("0x0xab"), NStr("0x0x0xabcd"), NStr(" 0xab"),
+              NStr("0xab\n"), NStr("0x0Xab"), NStr("x0ab")>>
 ToVals == <<NHexBytes(SubSeq(A20, 1, 19)), NHexBytes(A20), NHexBytes(A20 \o <<1>>), NStr(BytesToHex(A20)), NStr("0x0x" \o BytesToHex(A20)),
             NStr(UpperHex(A20)), NStr(Checksummed(A20)), NStr(FlipCase(Checksummed(A20))), NStr("0x"), NStr(""), NNum("0"),
             NBool(FALSE), NStr("0x" \o BytesToHex(A20) \o " "), NArr(<<>>)>>
 SlotVals == <<NHexBytes(SubSeq(S32, 1, 31)), NHexBytes(S32), NHexBytes(S32 \o <<1>>), NStr(BytesToHex(S32)), NStr(UpperHex(S32)),
-              NNum("1"), NStr("0x1"), NNull>>
+              NNum("1"), NStr("0x1"), NNull, NStr("0x0x" \o BytesToHex(S32)), NStr("0x0x0x" \o BytesToHex(S32)),
+              NStr("0x0x" \o BytesToHex(SubSeq(S32, 1, 31))), NStr("0x" \o BytesToHex(S32) \o " "), NStr("0x"), NStr("")>>
 NFields == 3 * (Len(DataVals) + Len(ToVals)) + 2 * Len(SlotVals) + 2 * 4
 FieldAt(j) ==
   LET nd == 3 * Len(DataVals)
